@@ -282,6 +282,15 @@ def run(pid, tier, seed, model_ok, replay, nprog=None):
         cases += stress
     impl = C.run_impl(cases, timeout=300)
     violations, disagreements = [], []
+    burst_res = None
+    if pid == "C09" and not replay:
+        # single-thread bursts of N >> write-queue-size operations without sync, both regimes, in lock-step
+        import gen, p_cache, oracles as _orc
+        brng = random.Random(seed * 11 + 9)
+        bursts = [gen.gen_burst(brng, 9700 + i) for i in range(8 if tier == "quick" else 120)]
+        burst_res = p_cache.run_cases(pid, _orc.oracle_safety, p_cache.PROJ["counters"], bursts, model_ok)
+        violations += burst_res["violations"]
+        disagreements += burst_res["disagreements"]
     dist = {"runs": len(cases), "threads": {}, "steps_total": 0, "ops_total": 0, "gets_with_value": 0,
             "preemptive_runs": 0, "livelocks": 0, "incomplete": 0}
     cell_traces, hk_traces = [], []
@@ -335,6 +344,6 @@ def run(pid, tier, seed, model_ok, replay, nprog=None):
         "violations": violations[:5],
         "disagreements": disagreements,
         "known": [],
-        "distribution": dist,
+        "distribution": dict(dist, bursts=(burst_res["distribution"]["ops"] if burst_res else None)),
         "traces_validated": len(cases) if model_ok else 0,
     }
